@@ -15,6 +15,7 @@ import (
 	"net/http"
 	"net/http/httptest"
 	"net/url"
+	"regexp"
 	"strings"
 	"sync"
 	"sync/atomic"
@@ -224,6 +225,9 @@ type Desc struct {
 	Ty    string
 	Entry string
 	Opts  []string
+	// Vals: option / issuer-factory VALUES this construction shares with other constructions of the history, as
+	// "<library function that made the value>#<identity of the value>" (e.g. "op.IssuerFromHost#1")
+	Vals []string
 }
 
 type Instance struct {
@@ -308,6 +312,95 @@ func providerOption(name string, tag string) op.Option {
 	panic("unknown provider option " + name)
 }
 
+// IssuerMakers: the library functions that make an issuer factory value (`func(insecure bool) (IssuerFromRequest, error)`)
+var IssuerMakers = []string{"op.IssuerFromHost", "op.IssuerFromForwardedOrHost", "op.StaticIssuer"}
+
+// ProvShare says which values of the history's Shared a provider construction reuses
+type ProvShare struct {
+	Issuer  string          // one of IssuerMakers ("" = a fresh issuer value)
+	Opts    map[string]bool // option names whose VALUE is the history's shared one
+	Slice   bool            // the options are handed over in the history's option slice (same backing array every time)
+	Storage bool            // the history's storage object
+	Config  bool            // the history's *op.Config
+	Tag     string          // harness: name the instance-specific endpoints after this tag instead of the instance id (twins)
+}
+
+func valID(maker string) int {
+	for i, m := range IssuerMakers {
+		if m == maker {
+			return i + 1
+		}
+	}
+	for i, o := range ProviderOpts {
+		if o == maker {
+			return 10 + i
+		}
+	}
+	return 99
+}
+
+// Vals lists the shared library-made values of a construction the way the model names them
+func (ps *ProvShare) Vals(opts []string) []string {
+	var out []string
+	if ps == nil {
+		return nil
+	}
+	if ps.Issuer != "" {
+		out = append(out, fmt.Sprintf("%s#%d", ps.Issuer, valID(ps.Issuer)))
+	}
+	for _, o := range opts {
+		if ps.Opts[o] {
+			out = append(out, fmt.Sprintf("%s#%d", o, valID(o)))
+		}
+	}
+	return out
+}
+
+// BuildProviderShared constructs a provider with op.NewProvider from values that other constructions of the same history
+// were (or will be) handed as well: the same issuer factory value, the same option values, the same option slice, the
+// same storage / config object - with this construction's own selection of options.
+func (w *World) BuildProviderShared(opts []string, sh *Shared, ps *ProvShare) *Instance {
+	return w.PrepareProviderShared(opts, sh, ps)()
+}
+
+// PrepareProviderShared assembles the arguments (the caller's part: it fills the shared option slice) and returns the
+// construction itself, so that only the library call lies inside the observed window.
+func (w *World) PrepareProviderShared(opts []string, sh *Shared, ps *ProvShare) func() *Instance {
+	in := &Instance{Desc: Desc{ID: w.NextID(), Ty: "op.Provider", Entry: "op.NewProvider", Opts: opts, Vals: ps.Vals(opts)}}
+	st, storage := newStore()
+	if ps.Storage {
+		st, storage = sh.Store, sh.Storage
+	}
+	in.ProvSt = st
+	tag := fmt.Sprint(in.Desc.ID)
+	if ps.Tag != "" {
+		tag = ps.Tag
+	}
+	oo := []op.Option{}
+	if ps.Slice {
+		oo = sh.OptSlice[:0]
+	}
+	for _, o := range opts {
+		if ps.Opts[o] {
+			oo = append(oo, sh.ProvOpt(o))
+		} else {
+			oo = append(oo, providerOption(o, tag))
+		}
+	}
+	cfg := opConfig()
+	if ps.Config {
+		cfg = sh.OpConfig
+	}
+	issuer := op.StaticIssuer("https://op" + tag + ".example")
+	if ps.Issuer != "" {
+		issuer = sh.Issuers[ps.Issuer]
+	}
+	return func() *Instance {
+		in.Prov, in.Err = op.NewProvider(cfg, storage, issuer, oo...)
+		return in
+	}
+}
+
 func (w *World) BuildProvider(entry string, opts []string) *Instance {
 	in := &Instance{Desc: Desc{ID: w.NextID(), Ty: "op.Provider", Entry: entry, Opts: opts}}
 	st, storage := newStore()
@@ -355,6 +448,23 @@ type Shared struct {
 	VOpts   []rp.VerifierOption
 	Scopes  []string
 	Cookies *httphelper.CookieHandler
+	// provider side: values that several provider constructions of the history are handed
+	Issuers  map[string]func(bool) (op.IssuerFromRequest, error) // one issuer factory VALUE per maker
+	provOpts map[string]op.Option                                // one option VALUE per option name (made on first use)
+	OptSlice []op.Option                                         // backing array reused for the option list
+	Store    *refstore.Store
+	Storage  op.Storage
+	OpConfig *op.Config
+}
+
+// ProvOpt returns the history's one value of the named provider option
+func (sh *Shared) ProvOpt(name string) op.Option {
+	if o, ok := sh.provOpts[name]; ok {
+		return o
+	}
+	o := providerOption(name, "s")
+	sh.provOpts[name] = o
+	return o
 }
 
 func (w *World) NewShared() *Shared {
@@ -362,7 +472,14 @@ func (w *World) NewShared() *Shared {
 	vo[0] = rp.WithIssuedAtOffset(5 * time.Second)
 	sc := make([]string, 2, 6)
 	sc[0], sc[1] = "openid", "offline_access"
+	st, storage := newStore()
 	return &Shared{
+		Issuers: map[string]func(bool) (op.IssuerFromRequest, error){
+			"op.IssuerFromHost":            op.IssuerFromHost("/"),
+			"op.IssuerFromForwardedOrHost": op.IssuerFromForwardedOrHost("/", op.WithIssuerFromCustomHeaders("forwarded", "x-c20-forwarded")),
+			"op.StaticIssuer":              op.StaticIssuer("https://shared.example"),
+		},
+		provOpts: map[string]op.Option{}, OptSlice: make([]op.Option, 0, 32), Store: st, Storage: storage, OpConfig: opConfig(),
 		Client: freshClient(),
 		Config: &oauth2.Config{ClientID: ClientID, ClientSecret: ClientSecret, RedirectURL: RedirectURI, Scopes: []string{"openid"},
 			Endpoint: oauth2.Endpoint{AuthURL: w.Issuer + "/authorize", TokenURL: w.Issuer + "/oauth/token"}},
@@ -532,6 +649,44 @@ func (w *World) Observe(in *Instance) map[string]string {
 	case in.KS != nil:
 		w.KeySetProbe(in.KS) // the first verification downloads the keys; what is compared is the state after that
 		out["ref-token-fetches"] = w.KeySetProbe(in.KS)
+	}
+	return out
+}
+
+var idLike = regexp.MustCompile(`[0-9a-fA-F-]{16,}|ar[0-9]+|[?&](id|authRequestID)=[^&]*`)
+
+// Behave probes the BEHAVIOUR of an instance from outside, the way a client of that instance would see it: for a provider
+// the discovery document for a request that carries Host and forwarding headers (issuer and every endpoint URL), the
+// answer of the authorization endpoint and of the keys endpoint; for a relying party the authorization URL it produces.
+// (Ids of created auth requests are blanked.)  What is compared is the probe before and after a step on ANOTHER instance.
+func (w *World) Behave(in *Instance) map[string]string {
+	out := map[string]string{}
+	defer func() {
+		if p := recover(); p != nil {
+			out["panic"] = fmt.Sprint(p)
+		}
+	}()
+	switch {
+	case in.Prov != nil:
+		p := in.Prov
+		do := func(req *http.Request) string {
+			req.Host = "probe.example"
+			req.Header.Set("Forwarded", "host=fwd.example")
+			req.Header.Set("X-C20-Forwarded", "host=fwd2.example")
+			rec := httptest.NewRecorder()
+			p.ServeHTTP(rec, req)
+			return fmt.Sprint(rec.Code, " ", idLike.ReplaceAllString(rec.Header().Get("Location"), "#"), " ", idLike.ReplaceAllString(rec.Body.String(), "#"))
+		}
+		out["discovery"] = do(httptest.NewRequest(http.MethodGet, "/.well-known/openid-configuration", nil))
+		q := url.Values{"client_id": {ClientID}, "redirect_uri": {RedirectURI}, "response_type": {"code"}, "scope": {"openid"}, "state": {"s"}}
+		out["authorize"] = do(httptest.NewRequest(http.MethodGet, p.AuthorizationEndpoint().Relative()+"?"+q.Encode(), nil))
+		out["keys"] = do(httptest.NewRequest(http.MethodGet, p.KeysEndpoint().Relative(), nil))
+	case in.RP != nil:
+		out["authurl"] = rp.AuthURL("state", in.RP)
+	case in.RS != nil:
+		out["endpoints"] = in.RS.IntrospectionURL() + " " + in.RS.TokenEndpoint()
+	case in.TE != nil:
+		out["endpoints"] = in.TE.TokenEndpoint()
 	}
 	return out
 }
